@@ -51,6 +51,7 @@ func txOrigin(v ssa.Value) ssa.Value {
 }
 
 func c17(c *Ctx) {
+	defer c.roomIsMeasuredAfterRemovals("R17.6")
 	P, R := c.P, c.R
 	R.Explain("R17.1", "check-before-insert in the same transaction with the same multiplicity (T-DOM): every transaction call that grows a limited quantity — mailboxes (CreateMailbox, CreateMailboxIfNotExists, GetOrCreateMailbox[Alt]) and messages/UIDs of a mailbox (AddMessagesToMailbox, CreateMessageAndAddToMailbox) — is dominated, in a function that received that transaction, by the matching limits.IMAP.Check* whose count argument comes from a read on the same transaction (GetMailboxCount / GetMailboxMessageCountAndUID); an insert inside a loop is covered only by a check inside that loop or by a check whose argument includes the batch size (len of the list being created). Exempt: the recovery-mailbox inserts (last resort of APPEND, see C20) and newUser's one-time creation of the recovery mailbox.")
 	R.Explain("R17.2", "limit errors are returned from the transaction closure (rollback), never swallowed.")
@@ -597,4 +598,87 @@ func helperBatchParam(g *ssa.Function, chk string) int {
 		}
 	}
 	return -1
+}
+
+// roomIsMeasuredAfterRemovals (R17.6): the pre-check counts the mailbox as the insert will find it.
+func (c *Ctx) roomIsMeasuredAfterRemovals(rule string) {
+	P, R := c.P, c.R
+	R.Explain(rule, "operations that fit are accepted: in internal/state, once a function has measured the room of a mailbox (checkMailboxHasRoom, or a limits Check*MessageCount fed from GetMailboxMessageCountAndUID) it does not afterwards take messages out of that same mailbox (a *RemoveMessagesFromMailbox* call whose mailbox argument comes from the same parameter).  COPY / APPEND of a message that is already in the destination first removes the old entry and then adds the new one; measured before the removal, the replaced messages are counted twice and a command that fits into a mailbox at its limit is refused.")
+	root := func(v ssa.Value) ssa.Value {
+		for i := 0; i < 8; i++ {
+			switch t := v.(type) {
+			case *ssa.Field:
+				v = t.X
+			case *ssa.FieldAddr:
+				v = t.X
+			case *ssa.UnOp:
+				v = t.X
+			case *ssa.ChangeType:
+				v = t.X
+			case *ssa.Alloc:
+				// a parameter spilled into a cell
+				if sts := engine.StoresTo(t); len(sts) == 1 {
+					v = sts[0].Val
+				} else {
+					return v
+				}
+			default:
+				return v
+			}
+		}
+		return v
+	}
+	mailboxArgs := func(cc *ssa.CallCommon) []ssa.Value {
+		var out []ssa.Value
+		for _, a := range cc.Args {
+			if engine.IsNamed(a.Type(), "imap", "InternalMailboxID") || engine.IsNamed(a.Type(), "db", "MailboxIDPair") {
+				out = append(out, root(a))
+			}
+		}
+		return out
+	}
+	n := 0
+	for _, f := range c.funcsInPkg("internal/state") {
+		var checks, removers []engine.CallSite
+		for _, cs := range engine.Calls(f) {
+			if cs.Instr.Parent() != f {
+				continue
+			}
+			cc := cs.Common()
+			name := ""
+			if sc := cc.StaticCallee(); sc != nil {
+				name = engine.ShortName(sc)
+			} else if cc.IsInvoke() {
+				name = cc.Method.Name()
+			}
+			switch {
+			case name == "checkMailboxHasRoom":
+				checks = append(checks, cs)
+			case strings.Contains(name, "RemoveMessagesFromMailbox"):
+				removers = append(removers, cs)
+			}
+		}
+		if len(checks) == 0 || len(removers) == 0 {
+			continue
+		}
+		for _, k := range checks {
+			km := mailboxArgs(k.Common())
+			for _, r := range removers {
+				same := false
+				for _, a := range mailboxArgs(r.Common()) {
+					for _, b := range km {
+						if a == b {
+							same = true
+						}
+					}
+				}
+				if !same {
+					continue
+				}
+				n++
+				R.Check(!engine.InstrReaches(k.Instr, r.Instr), rule, c.name(f)+"|room measured after the removal", P.Pos(k.Pos()), "no removal from the measured mailbox can follow the measurement", "the room of the mailbox is measured ("+P.Pos(k.Pos())+") before messages are taken out of the same mailbox ("+P.Pos(r.Pos())+"): the messages that are about to be replaced are counted as well, and an operation that fits into a mailbox at its limit is refused")
+			}
+		}
+	}
+	R.Min(rule, "room checks in functions that also remove from the measured mailbox", n, 1)
 }
